@@ -33,7 +33,7 @@ class FuncDef:
         return "staticmethod" in self.decorators
 
     def source_info(self):
-        seg = ast.get_source_segment(self.module.text, self.node) or ""
+        seg = getattr(self, "harness_text", None) or ast.get_source_segment(self.module.text, self.node) or ""
         return {
             "qualname": self.qualname,
             "file": os.path.relpath(self.module.path, os.path.dirname(REPO_SRC)),
@@ -172,6 +172,7 @@ class Repo:
     def __init__(self, src=None):
         self.src = src or REPO_SRC
         self.modules: dict[str, Module] = {}
+        self.harnesses: dict[str, FuncDef] = {}
 
     def module(self, name) -> Module | None:
         if name in self.modules:
@@ -185,8 +186,22 @@ class Repo:
                 return self.modules[name]
         return None
 
+    def add_harness(self, modname, name, src):
+        """a small function written in a contract file, run in the namespace of a real module: it may only
+        call real functions (which are inlined or replaced by their contracts as usual)"""
+        m = self.module(modname)
+        node = ast.parse(src).body[0]
+        node.name = name
+        f = FuncDef(node, m)
+        f.qualname = f"{modname}:<harness>{name}"
+        f.harness_text = src
+        self.harnesses[f.qualname] = f
+        return f
+
     def lookup(self, qualname):
         """'pkg.mod:func' or 'pkg.mod:Class.method' or 'pkg.mod:Class'"""
+        if qualname in self.harnesses:
+            return self.harnesses[qualname]
         modname, _, rest = qualname.partition(":")
         m = self.module(modname)
         if m is None:
